@@ -31,7 +31,9 @@ static std::optional<Failure> check_one(Run &R, const Bytes &d) {
     R.count(labs.size() < 2 ? "single-label" : cls ? "listed:" + *cls : "unlisted");
     R.nontrivial(hashs(d));
     if (!ascii) R.sample("U-label", show(d) + " -> " + af, 3);
-    Bytes addr = "x@" + d;
+    // the local part must not matter: short, dotted, and long dotted ones (the last dot of the *address* may sit in the local part)
+    static const Bytes LOCALS[] = {"x", "first.last", "a.b.c.d.e.f.g.h.i.j.k.l.m.n.o.p.q.r.s.t.u.v.w.x.y.z.0.1.2.3.4.5", "building.intranet-mailhost.0123456789.abcdefghij.klmnopqrst.uv"};
+    Bytes addr = LOCALS[(hashs(d) >> 7) & 3] + "@" + d;
     for (int m = ascii ? 0 : 3; m < 4; m++) {
         v_outcome o = email_direct(A, TB, m, addr, 1); R.eval();
         if (m == 3 && o.rc == -C->E_IDN) { R.count("6531-idn-error-skipped"); continue; }
@@ -113,6 +115,26 @@ static void stage_random(Run &R) {
     });
 }
 
+// mass lookup of random unlisted labels through is_tld (cheap call): a lookup structure that identifies labels by anything less than
+// their full text (hash, prefix index, ...) must still reject them.  One rapidcheck case expands to 100 000 labels.
+static void stage_mass(Run &R) {
+    rc_run(R, "C07 mass random labels are found iff they are in the table", 1.0, [&](Src &s) -> std::optional<Failure> {
+        Src e(s.p, s.n); e.expand = true; e.i = s.n;    // deterministic expansion of the generated entropy
+        static const char AB[] = "abcdefghijklmnopqrstuvwxyz0123456789-";
+        for (int k = 0; k < 100000; k++) {
+            uint32_t r = e.byte(); size_t len = 2 + r % (r & 0x80 ? 22 : 9); Bytes l;
+            for (size_t i = 0; i < len; i++) l += AB[e.byte() % (i == 0 || i + 1 == len ? 36 : 37)];
+            if (r % 5 == 0) { l = "xn--" + l; }
+            const Bytes *cls = T.puny.find(l);
+            int got = part0(A, TB, VP_TLD, l); R.eval();
+            int want = cls ? C->tld_type[C->idx(*cls)] : -C->E_TLD_INVALID;
+            if (got != want) { Case c; c.b("domain", "a." + l); return Failure{"is_tld-mass", c.str(), "is_tld('" + show(l) + "') = " + std::to_string(got) + ", table says " + (cls ? *cls : Bytes("invalid TLD"))}; }
+        }
+        R.count("mass-label-batches"); R.nontrivial(hashb(s.p, s.n, 77));
+        return std::nullopt;
+    });
+}
+
 static void stage_corpus(Run &R) {
     std::ifstream f(R.a.datadir + "/tld-domains.txt"); std::string line; uint64_t n = 0;
     while (std::getline(f, line)) {
@@ -127,7 +149,7 @@ static void stage_corpus(Run &R) {
 #ifndef VF_FUZZ
 int main(int argc, char **argv) {
     return std_main(argc, argv, "C07",
-        {{"table", stage_table}, {"random", stage_random}, {"corpus", stage_corpus}},
+        {{"table", stage_table}, {"random", stage_random}, {"corpus", stage_corpus}, {"mass", stage_mass}},
         [](Run &R, const Case &c) { return check_one(R, c.getb("domain")); },
         [] { return g_bytes ? mkcase(*g_bytes).str() : std::string(); },
         [](Run &R) {
